@@ -499,7 +499,7 @@ func gen(r *hv.Rng, i int, tier string) (string, hv.Val) {
 }
 
 func main() {
-	hv.Main(&hv.Spec{Prop: "C47", Gen: gen, Impl: impl, NQuick: 64, NThorough: 4000})
+	hv.Main(&hv.Spec{Prop: "C47", Gen: gen, Impl: impl, NQuick: 48, NThorough: 4000})
 	e2e.RemoveAll()
 	os.Stdout.Sync()
 }
